@@ -73,6 +73,9 @@ def _walker(ignore_ids=()):
         if isinstance(o, (property, staticmethod, classmethod, types.MemberDescriptorType, types.GetSetDescriptorType,
                           types.WrapperDescriptorType, types.MethodDescriptorType)):
             return ("desc", type(o).__name__)
+        if (type(o).__module__ or "").split(".")[0] not in PKGS:
+            # instances of foreign classes (logging.Logger with its level cache, a linkifier, ...) are leaves
+            return ("obj-ext", type(o).__qualname__)
         parts = []
         if hasattr(o, "__dict__"):
             parts.append(("d", walk(vars(o))))
